@@ -979,7 +979,11 @@ func (e *Exec) assertAts(s *State, callee string, args []Val, cc *ssa.CallCommon
 		return
 	}
 	for _, aa := range e.con.AssertAts {
-		if !strings.Contains(callee, aa.Callee) {
+		if strings.HasSuffix(aa.Callee, "$") {
+			if !strings.HasSuffix(callee, strings.TrimSuffix(aa.Callee, "$")) {
+				continue // a pattern ending in $ must match the END of the callee's name
+			}
+		} else if !strings.Contains(callee, aa.Callee) {
 			continue
 		}
 		if aa.Ord >= 0 && aa.Ord != e.siteOrd(aa.Callee, cc) {
